@@ -39,7 +39,7 @@ def apply_actions(
     :param allow_inapplicable_actions: whether to allow inapplicable actions.
     :return: The state resulting from applying the actions.
     """
-    if len(joint_action) == 1:
+    if len(joint_action) == 1 and joint_action[0].name != NOP_ACTION:
         action_call = joint_action[0]
         action = domain.actions[action_call.name]
         return Operator(
@@ -50,6 +50,8 @@ def apply_actions(
         )
 
     accumulative_changed_state = current_state.copy()
+    # the result is a successor state even when every agent idles (it was exported as a second ':init').
+    accumulative_changed_state.is_init = False
     for action_call in joint_action:
         if action_call.name == NOP_ACTION:
             continue
